@@ -21,6 +21,17 @@ type tplSpec struct {
 var tplSpecs = []tplSpec{
 	{"path_property", "internal/generator/path.go", []string{"traverseRegularProperty"}},
 	{"path_aggregate", "internal/generator/path.go", []string{"traversePath", "aggregateResultsIntoSet", "aggregateResultsIntoArray"}},
+	{"atom_count", "internal/generator/count.go", nil},
+	{"atom_pattern", "internal/generator/pattern.go", nil},
+	{"atom_contains_all", "internal/generator/scalar_subset.go", nil},
+	{"atom_in", "internal/generator/scalar_superset.go", nil},
+	{"atom_contains_some", "internal/generator/scalar_intersect_set.go", nil},
+	{"atom_numeric", "internal/generator/numericcomparison.go", nil},
+	{"atom_property_comparison", "internal/generator/propertycomparison.go", nil},
+	{"atom_datatype", "internal/generator/datatype.go", nil},
+	{"atom_unique_values", "internal/generator/uniqueValues.go", nil},
+	{"nested", "internal/generator/nested.go", nil},
+	{"expression", "internal/generator/expression.go", nil},
 }
 
 func stringLits(n ast.Node) []string {
